@@ -381,6 +381,98 @@ def multi():
     return out
 
 
+# ----------------------------------------------------------------------------------------
+# generators, lifecycle hooks, push (C16): programs for spec/Gen.tla
+
+
+def g_irq(key, hooks=()):
+    return {"k": "irq", "key": key, "hooks": list(hooks), "n": 0, "mode": "nil", "items": []}
+
+
+def g_gen(kind, key, n, items):
+    return {"k": kind, "key": key, "hooks": [], "n": n, "mode": "nil", "items": list(items)}
+
+
+def g_blk(mode, key, items):
+    return {"k": "blk", "key": key, "hooks": [], "n": 0, "mode": mode, "items": list(items)}
+
+
+def r_hook(owner, on):
+    return {"uses": "acts.core.msg", "on": on, "key": f"h_{owner}_{on}"}
+
+
+def r_item(it):
+    if it["k"] == "msg":
+        return {"uses": "acts.core.msg", "key": it["key"]}
+    if it["k"] == "irq":
+        d = {"uses": "acts.core.irq", "key": it["key"]}
+        if it["hooks"]:
+            d["setup"] = [r_hook(it["key"], on) for on in it["hooks"]]
+        return d
+    if it["k"] in ("par", "seq"):
+        return {"uses": "acts.core.parallel" if it["k"] == "par" else "acts.core.sequence", "key": it["key"],
+                "params": {"in": [f"u{i}" for i in range(it["n"])], "acts": [r_item(x) for x in it["items"]]}}
+    return {"uses": "acts.core.block", "key": it["key"],
+            "params": {"mode": "parallel" if it["mode"] == "par" else "sequence", "acts": [r_item(x) for x in it["items"]]}}
+
+
+def g_line(name, acts, hw=(), hs=(), hk=()):
+    prog = {"acts": list(acts), "hw": list(hw), "hs": list(hs), "hk": list(hk)}
+    step = {"id": "s1", "acts": [dict(r_item(a), id=f"t{i}") for i, a in enumerate(acts)]}
+    if hs:
+        step["setup"] = [r_hook("s", on) for on in hs]
+    wf = {"id": "g", "name": "g", "steps": [step]}
+    if hw:
+        wf["setup"] = [r_hook("w", on) for on in hw]
+    return {"name": name, "prog": prog, "model": json.dumps(wf)}
+
+
+def gens():
+    out = []
+    k1, k2 = g_irq("k1"), g_irq("k2")
+    bases = []
+    for n in range(0, 4):
+        bases.append((f"par{n}", [g_gen("par", "g1", n, [k1])]))
+        bases.append((f"seq{n}", [g_gen("seq", "g1", n, [k1])]))
+    for n in (1, 2):
+        bases.append((f"par{n}x2", [g_gen("par", "g1", n, [k1, k2])]))
+        bases.append((f"seq{n}x2", [g_gen("seq", "g1", n, [k1, k2])]))
+        bases.append((f"mid_par{n}", [g_irq("k0"), g_gen("par", "g1", n, [k1]), g_irq("k9")]))
+    bases.append(("mid_seq0", [g_irq("k0"), g_gen("seq", "g1", 0, [k1]), g_irq("k9")]))
+    for n in (1, 2):
+        for m in (0, 1, 2):
+            bases.append((f"par{n}_seq{m}", [g_gen("par", "g1", n, [g_gen("seq", "g2", m, [k1])])]))
+            bases.append((f"seq{n}_par{m}", [g_gen("seq", "g1", n, [g_gen("par", "g2", m, [k1])])]))
+    bases.append(("blk_par", [g_blk("par", "b1", [k1, k2])]))
+    bases.append(("blk_seq", [g_blk("seq", "b1", [k1, k2])]))
+    bases.append(("par2_blkpar", [g_gen("par", "g1", 2, [g_blk("par", "b1", [k1, k2])])]))
+    bases.append(("plain", [k1, k2]))
+    m1 = {"k": "msg", "key": "m1", "hooks": [], "n": 0, "mode": "nil", "items": []}
+    bases.append(("msg_first", [m1, k1]))
+    bases.append(("msg_last", [k1, m1]))
+    bases.append(("par2_msg", [g_gen("par", "g1", 2, [m1, k1])]))
+    hookings = [
+        ("h0", (), (), ()),
+        ("hs_upd", (), ("before_update", "updated"), ()),
+        ("hs_life", (), ("created", "completed", "step"), ()),
+        ("hw_all", ("before_update", "updated", "step", "created", "completed"), (), ()),
+        ("hk", (), (), ("created", "completed")),
+        ("hall", ("updated", "step"), ("before_update", "updated", "step"), ("created", "completed")),
+    ]
+
+    def with_irq_hooks(it, hk):
+        it = dict(it)
+        if it["k"] == "irq" and it["key"] == "k1":
+            it["hooks"] = list(hk)
+        it["items"] = [with_irq_hooks(x, hk) for x in it["items"]]
+        return it
+
+    for bname, acts in bases:
+        for hname, hw, hs, hk in hookings:
+            out.append(g_line(f"{bname}.{hname}", [with_irq_hooks(a, hk) for a in acts], hw, hs, hk))
+    return out
+
+
 def loops():
     """backward `next` jumps (second instances of tasks); not in any tier yet, see DESIGN.md"""
     out = []
@@ -691,6 +783,7 @@ FAMILIES = {
     "loops": lambda a: loops(),
     "timedunits": lambda a: timedunits(),
     "subflow": lambda a: subflow(),
+    "gens": lambda a: gens(),
     "multi": lambda a: multi(),
     "timedsmall": lambda a: [ln for ln in timed() if ln["name"] not in ("t_branches", "t_two_acts", "t_act_two_rules")],
     # the hand-written models without parallel interrupt branches (cheap with a larger client budget)
